@@ -221,12 +221,41 @@ def _strip_comments(txt):
     return "".join(out)
 
 
-def audit_sources():
+def deps_closure(vo_targets):
+    """.v files (absolute paths) the given .vo targets depend on inside this
+    development, following `From LV Require … X.Y` / `Require … LV.X.Y` lines."""
+    todo = [os.path.join(COQ, t[:-1]) for t in vo_targets]   # .vo -> .v
+    seen = set()
+    while todo:
+        f = todo.pop()
+        if f in seen or not os.path.exists(f):
+            continue
+        seen.add(f)
+        body = _strip_comments(open(f, errors="replace").read())
+        for sent in re.split(r"\.\s", body + " "):
+            m = re.match(r"\s*(?:From\s+(\S+)\s+)?Require\s+(?:Import\s+|Export\s+)?(.*)$",
+                         sent.strip(), re.S)
+            if not m:
+                continue
+            for name in m.group(2).split():
+                if name.startswith("LV."):
+                    name = name[3:]
+                elif m.group(1) != "LV":
+                    continue
+                cand = os.path.join(THEORIES, *name.split(".")) + ".v"
+                if os.path.exists(cand):
+                    todo.append(cand)
+    return seen
+
+
+def audit_sources(files=None):
     """grep the development (comments stripped) for anything that would declare
     an axiom or switch off a kernel check, and for Variable/Hypothesis outside a
-    Section.  Returns list of 'file:line: text'."""
+    Section.  files=None audits every .v file.  Returns list of 'file:line: text'."""
     hits = []
-    for p in sorted(glob.glob(os.path.join(THEORIES, "**", "*.v"), recursive=True)):
+    if files is None:
+        files = glob.glob(os.path.join(THEORIES, "**", "*.v"), recursive=True)
+    for p in sorted(files):
         body = _strip_comments(open(p, errors="replace").read())
         depth = 0
         for n, line in enumerate(body.split("\n"), 1):
@@ -430,10 +459,16 @@ class Ctx:
         res["log"] += mlog[-6000:]
         if not ok:
             res["ok"] = False
-        hits = audit_sources()
+        # the property's own dependency closure must be clean; hits elsewhere in the
+        # development (another property's files) are recorded, not held against this one
+        closure = deps_closure(vo_targets)
+        hits = audit_sources(closure)
         if hits:
             res["ok"] = False
             res["broken"].append("audit: " + "; ".join(hits[:5]))
+        other = [h for h in audit_sources() if h not in hits]
+        self.cov["audit"] = {"files_in_closure": len(closure), "hits_in_closure": hits,
+                             "hits_elsewhere_in_development": other[:10]}
         asm = print_assumptions(self.uid(), module, theorems)
         res["assumptions"] = asm
         for t, a in asm.items():
